@@ -423,3 +423,6 @@ Lemma lts_example :
               call_done st' = true /\ o_blobs (c_s st') = [2; 0]%N /\
               predecessors (o_graph (c_s st')) 0%N = [2%N].
 Proof. eexists. vm_compute. repeat split. Qed.
+
+Lemma oci_step_order_true : oci_step_order = true.
+Proof. vm_compute. reflexivity. Qed.
